@@ -4,7 +4,7 @@ import itertools
 import sys
 import threading
 
-from .. import alpha, env, fault, isolate, sched, schedcheck, seq, seqcheck
+from .. import alpha, env, fault, isolate, model, sched, schedcheck, seq, seqcheck
 from ..runner import new_result
 from . import c09
 
@@ -93,7 +93,15 @@ class FaultRunner:
         try:
             hooks.active = True
             for ev in window:
-                out = world.apply(ev)
+                if ev[0] == "op":
+                    # no result conversion inside the fault window (it must not perform I/O of its own)
+                    try:
+                        model.impl_call(world.handle_objs[ev[1]], ev[2], ev[3], world.mk_synced)
+                        out = ("ok", None)
+                    except Exception as e:  # noqa: BLE001
+                        out = ("exc", e)
+                else:
+                    out = world.apply(ev)
                 outcomes.append(None if out is None else (out[0], type(out[1]).__name__ if out[0] == "exc" else None))
             hooks.active = False
         finally:
@@ -300,7 +308,7 @@ def plan(tier, seed):
                 and set(p["pair"].split("||")) <= {"write", "reset", "obj-ctx", "setcap"}]
         for p in core:
             tasks.append({"kind": "sched", "label": "b2/%s" % p["label"], "programs": [p], "bound": 2, "reduction": True,
-                          "max_executions": 100000})
+                          "max_executions": 40000})
     for c in (("JSONDict", "BufferedJSONDict", "MemoryBufferedJSONList") if tier == "quick" else env.all_json_classes()):
         k = env.kind_of(c)
         depth = 3 if tier == "quick" else 4
